@@ -182,3 +182,55 @@ Theorem C08_equivalent_lps_have_the_same_optima : forall (m1 m2 : milp), milp_eq
   forall a, (sat a m1 /\ forall b, sat b m1 -> obj_le m1 a b) <-> (sat a m2 /\ forall b, sat b m2 -> obj_le m2 a b).
 Proof. exact milp_equiv_optimal. Qed.
 Print Assumptions C08_equivalent_lps_have_the_same_optima.
+
+(* ------------------------------------------------------------------ END TO END, hypotheses about the caller's input only *)
+(* "k-Minimum-Path-Error is feasible for k >= width".  Caller data: a DAG (V, E) with duplicate-free node and edge lists, fresh
+   synthetic source / sink s, t, non-negative integer weights f (no conservation), an ignore list, scalings in [0,1], subpath
+   constraints made of edges of E, and some edge that is neither ignored nor scaled by 0.  The instance is BUILT from that data
+   (e2e_kmpe_inst: Aug.aug_edges, adjacency tables of st_of); well-formedness of the s-t graph, the weight domain, max f <= w_max
+   and the bounds of the position / length columns are derived.  Assumed about the cover, exactly: c source-to-sink paths of
+   the augmented graph that contain every non-ignored edge (path_cover ... (ign_all ...)) and cover every subpath constraint to the
+   required fraction (constraints_covered).  Then the LP is satisfiable for EVERY k >= c (padding: the first path is repeated,
+   all weights 0, every slack max f). *)
+From FP Require Import Aug AugProofs PathCoverComplete EndToEnd1 EndToEnd2 EndToEnd3 EndToEndCover EndToEndExample EndToEndErr EndToEndErrExample.
+From FP Require Import Search SearchProofs1 SearchProofs2.
+From FP Require Peel.
+Theorem C08_kmpe_end_to_end_feasible : forall (V : list node) (E : list PathEnc.edge) (s t : node) (f : PathEnc.edge -> Z)
+    (ign : list PathEnc.edge) (scale : list (PathEnc.edge * Q)) (cons : list (list PathEnc.edge)) (cov : Q),
+  ~ In s V -> ~ In t V -> s <> t -> (forall e, In e E -> In (fst e) V /\ In (snd e) V) -> NoDup V -> NoDup E ->
+  (forall e, In e E -> (0 <= f e)%Z) -> (forall es, In es scale -> (0 <= snd es <= 1)%Q) ->
+  (forall c e, In c cons -> In e c -> In e E) ->
+  (exists e, In e E /\ mem_edge e ign = false /\ mem_edge e (map fst (filter (fun es => Qeq_bool (snd es) 0) scale)) = false) ->
+  forall (c k : nat) (P : N -> list node),
+  path_cover (e2e_base V E s t cons cov c) (ign_all (e2e_err_inst V E s t f ign scale cons cov c)) P ->
+  constraints_covered (e2e_base V E s t cons cov c) P -> (c <= k)%nat ->
+  exists a, sat a (encode_kmpe (e2e_kmpe_inst V E s t f ign scale cons cov k)) /\
+            (objective a (encode_kmpe (e2e_kmpe_inst V E s t f ign scale cons cov k))
+             == sumq (fun _ => max_flow (e2e_err_inst V E s t f ign scale cons cov k)) (layers k))%Q.
+Proof. exact kmpe_end_to_end_feasible. Qed.
+Print Assumptions C08_kmpe_end_to_end_feasible.
+
+(* composed with C09 (minpathcover_end_to_end): the number MinPathCover returns for the caller's DAG -- the minimum number of
+   source-to-sink paths covering every edge -- makes kMinPathError feasible for every k at least that number, whatever the
+   (non-negative) weights, the ignore list and the scalings *)
+Theorem C08_kmpe_feasible_from_minpathcover : forall (V : list node) (E : list PathEnc.edge) (s t : node)
+    (Pa Sa : list (node * list node)) (topo : list node) (feasible : nat -> bool) (lb : nat) (sts : list raw)
+    (f : PathEnc.edge -> Z) (ign : list PathEnc.edge) (scale : list (PathEnc.edge * Q)),
+  NoDup V -> (forall e, In e E -> In (fst e) V /\ In (snd e) V) -> ~ In s V -> ~ In t V -> s <> t ->
+  Peel.peel_inputs_ok E Pa Sa topo = true ->
+  (forall k, feasible k = true <-> exists a, sat a (encode_kpc (cover_inst V E s t k) (synth V E s t))) ->
+  (forall i, (i < S (length E) - lb)%nat -> exists x, nth_error sts i = Some x /\
+             status_of x = if feasible (lb + i)%nat then Optimal else Infeasible) ->
+  (forall k, (k < lb)%nat -> feasible k = false) ->
+  (forall e, In e E -> (0 <= f e)%Z) -> (forall es, In es scale -> (0 <= snd es <= 1)%Q) ->
+  (exists e, In e E /\ mem_edge e ign = false /\ mem_edge e (map fst (filter (fun es => Qeq_bool (snd es) 0) scale)) = false) ->
+  exists kopt,
+    so_res (mpc_solve true lb (S (length E)) sts) = Solved kopt /\
+    forall k, (kopt <= k)%nat -> exists a, sat a (encode_kmpe (e2e_kmpe_inst V E s t f ign scale [] 1%Q k)).
+Proof. exact kmpe_feasible_from_minpathcover. Qed.
+Print Assumptions C08_kmpe_feasible_from_minpathcover.
+
+(* non-vacuity on the diamond of EndToEndExample.v: both end-to-end theorems apply; kMinPathError feasible for every k >= 2 *)
+Example C08_end_to_end_example :
+  forall k, (2 <= k)%nat -> exists a, sat a (encode_kmpe (e2e_kmpe_inst xV xE 0%N 5%N xf [] [] [] 1%Q k)).
+Proof. exact (proj1 e2e_err_example). Qed.
